@@ -1,10 +1,82 @@
 import PymtlVerif.Driver.Sexp
+import PymtlVerif.Model.Pipe
 /-!
-Handler `pipe`: executable face of `Model/Pipe.lean` (cycle-level model of the five-stage ProcRTL). Stub.
+Handler `pipe`: executable face of `Model/Pipe.lean` (cycle-level model of the five-stage ProcRTL).
+
+`pipe run (e0 e1 ...)` — a whole recorded trace; each `e` is the 13 numbers of one `EnvIn` record in the order
+`reset imem_req_rdy imem_resp_en imem_resp_data dmem_req_rdy dmem_resp_en dmem_resp_data mngr2proc_en
+mngr2proc_msg proc2mngr_rdy xcel_req_rdy xcel_resp_en xcel_resp_data` (1-bit fields 0/1, data fields < 2^32).
+The model starts in the power-on state `State.init` (every signal 0) and answers one record per cycle:
+`((out) (digest))` where `out` = the 17 `EnvOut` fields in declaration order and `digest` = the sequential state
+before the clock edge followed by the internal combinational signals of that cycle (order: `digestNames` in
+`harness/checks/c20_pipe.py`) and the 32 registers.
 -/
 namespace PV.Driver.Pipe
-open PV
+open PV PV.Pipe
 
-def handle (_args : List Sexp) : Option String := none
+def bit? : Sexp → Option Bool
+  | .atom "1" => some true
+  | .atom "0" => some false
+  | _ => none
+
+def word? (x : Sexp) : Option Nat := do
+  let v ← x.nat?
+  if v < 4294967296 then some v else none
+
+def envIn? : Sexp → Option EnvIn
+  | .list [r, a, b, c, d, e, f, g, h, k, l, m, o] => do
+    some { reset := ← bit? r, imem_req_rdy := ← bit? a, imem_resp_en := ← bit? b, imem_resp_data := ← word? c,
+           dmem_req_rdy := ← bit? d, dmem_resp_en := ← bit? e, dmem_resp_data := ← word? f,
+           mngr2proc_en := ← bit? g, mngr2proc_msg := ← word? h, proc2mngr_rdy := ← bit? k,
+           xcel_req_rdy := ← bit? l, xcel_resp_en := ← bit? m, xcel_resp_data := ← word? o }
+  | _ => none
+
+def b (x : Bool) : Nat := if x then 1 else 0
+
+def outList (o : EnvOut) : List Nat :=
+  [b o.imem_req_en, o.imem_req_addr, b o.imem_resp_rdy, b o.dmem_req_en, o.dmem_req_type, o.dmem_req_addr,
+   o.dmem_req_data, b o.dmem_resp_rdy, b o.mngr2proc_rdy, b o.proc2mngr_en, o.proc2mngr_msg, b o.xcel_req_en,
+   b o.xcel_req_type, o.xcel_req_addr, o.xcel_req_data, b o.xcel_resp_rdy, b o.commit_inst]
+
+def digest (s : State) (i : EnvIn) : List Nat :=
+  -- sequential state
+  [b s.val_F, b s.val_D, b s.val_X, b s.val_M, b s.val_W,
+   s.pc_F, s.pc_D, s.inst_D, s.br_target_X, s.op1_X, s.op2_X, s.store_X, s.ex_result_M, s.wb_result_W,
+   b s.cx.rf_wen_pending, s.cx.inst_type, s.cx.alu_fn, s.cx.rf_waddr, b s.cx.proc2mngr_en, s.cx.dmemreq_type,
+   s.cx.wb_result_sel, b s.cx.br_type, b s.cx.xcelreq, b s.cx.xcelreq_type,
+   b s.cm.rf_wen_pending, s.cm.inst_type, s.cm.rf_waddr, b s.cm.proc2mngr_en, s.cm.dmemreq_type,
+   s.cm.wb_result_sel, b s.cm.xcelreq,
+   b s.cw.rf_wen_pending, s.cw.inst_type, s.cw.rf_waddr, b s.cw.proc2mngr_en,
+   b s.drop_wait, b s.q1_full, s.q1_buf, b s.q2_full, s.q2_buf,
+   b s.imemresp_q.full, s.imemresp_q.entry, b s.dmemresp_q.full, s.dmemresp_q.entry,
+   b s.mngr2proc_q.full, s.mngr2proc_q.entry, b s.xcelresp_q.full, s.xcelresp_q.entry,
+   -- combinational signals
+   b (stall_F s i), b (stall_D s i), b (stall_X s i), b (stall_M s i), b (stall_W s i),
+   b (ostall_F s i), b (ostall_D s i), b (ostall_X s i), b (ostall_M s i), b (ostall_W s i),
+   b (squash_F s i), b (squash_D s i), b (osquash_X s i), b (pc_redirect_X s),
+   b (reg_en_F s i), b (reg_en_D s i), b (reg_en_X s i), b (reg_en_M s i), b (reg_en_W s i),
+   b (next_val_F s i), b (next_val_D s i), b (next_val_X s i), b (next_val_M s i),
+   b (pc_sel_F s), op1_byp_sel_D s, op2_byp_sel_D s, (cs s).op2_sel, (cs s).imm_type, inst_type_D s,
+   b (cs s).inst_val, b (cs s).br_type, b (cs s).rs1_en, b (cs s).rs2_en, (cs s).alu_fn, (cs s).dmemreq_type,
+   (cs s).wb_result_sel, b (cs s).rf_wen_pending, b (cs s).csrr, b (cs s).csrw,
+   b (proc2mngr_en_D s), b (mngr2proc_D s), b (xcelreq_D s), b (xcelreq_type_D s),
+   b (ostall_hazard_D s), b (ostall_mngr_D s i), b (ne_X s),
+   b (imemreq_en s i), b (imemreq_rdy s), b (imemresp_en s i), b (imemresp_rdy s i), b (imemresp_drop s i),
+   b (drop_in_en s i), b (drop_in_rdy s i),
+   b (dmemresp_en s i), b (dmemresp_rdy s i), b (mngr2proc_en s i), b (mngr2proc_rdy s i),
+   b (xcelresp_en s i), b (xcelresp_rdy s i),
+   imemreq_addr s, imemresp_data s i, dmemresp_data s i, mngr2proc_data s i, xcelresp_data s i,
+   rf_rdata0_D s, rf_rdata1_D s, imm_D s, op1_byp_D s i, op2_byp_D s i, op2_D s i, pc_plus_imm_D s,
+   alu_out_X s, bypass_M s i, b (rf_wen_W s), s.cw.rf_waddr, s.wb_result_W]
+  ++ s.rf
+
+def showRec (r : State × EnvIn × EnvOut) : String :=
+  "(" ++ natsToString (outList r.2.2) ++ " " ++ natsToString (digest r.1 r.2.1) ++ ")"
+
+def handle : List Sexp → Option String
+  | [.atom "run", .list es] => do
+    let envs ← es.mapM envIn?
+    some ("(" ++ " ".intercalate ((run State.init envs).map showRec) ++ ")")
+  | _ => none
 
 end PV.Driver.Pipe
